@@ -11,7 +11,10 @@ Section Inv.
   Variable choose : nat -> nat -> list utxo -> list utxo.
   Variable more : nat -> nat -> list utxo -> bool.
   Variable finish : nat -> bool.
+  Variable pre : nat -> list utxo.
+  Variable start : nat -> bool.
   Variable can_sign : nat -> list utxo -> bool.
+  Hypothesis pre_nd : forall b, NoDup (map uid (pre b)).
   (* what C03_select_sound proves of the real chooser *)
   Hypothesis choose_ok : forall b r l,
     NoDup (map uid l) -> incl (choose b r l) l /\ NoDup (map uid (choose b r l)).
@@ -111,10 +114,89 @@ Section Inv.
         * assumption.
   Qed.
 
-  Lemma step_inv st b : Inv st -> Inv (step true n choose more finish can_sign st b).
+  (* a build's pre-chosen wallet outputs are unreserved at the moment it reserves them *)
+  Definition fresh (st : state) (b : nat) : Prop :=
+    ph (bs st b) = PPre -> forall u, In u (pre b) -> In (u, false) (wal st).
+
+  Lemma step_inv st b : Inv st -> fresh st b -> Inv (step true true n choose more finish pre start can_sign st b).
   Proof.
-    intro I. unfold step. destruct (n <=? b) eqn:Hn; [assumption|]. apply Nat.leb_gt in Hn.
+    intros I Hfresh. unfold step. destruct (n <=? b) eqn:Hn; [assumption|]. apply Nat.leb_gt in Hn.
     destruct (ph (bs st b)) eqn:P.
+    - (* PreLock *)
+      destruct (lock st) eqn:L; [assumption|].
+      constructor; simpl.
+      + apply (I_nodup st I).
+      + intros i. split_b b i; simpl; [reflexivity|]. intro Hc. apply (I_crit st I) in Hc. congruence.
+      + intros i u. split_b b i; simpl; apply (I_held st I).
+      + intros i. split_b b i; simpl; apply (I_held_nd st I).
+      + intros b1 b2 u1 u2 Hne. split_b b b1; split_b b b2; simpl; apply (I_disj st I); assumption.
+      + intros i. split_b b i; simpl; [discriminate | apply (I_snap st I)].
+      + intros i. split_b b i; simpl; [discriminate | apply (I_sel st I)].
+      + intros u Hu. destruct (I_res st I u Hu) as [i Hi]. exists i. split_b b i; simpl; assumption.
+      + intros i Hi. rewrite upd_other by lia. apply (I_out st I); assumption.
+      + intros i. split_b b i; simpl; [discriminate | apply (I_fin st I)].
+      + intros Hall. apply (I_same st I). intros i. specialize (Hall i). split_b b i; simpl in *; [congruence | assumption].
+    - (* Pre: the pre-chosen outputs are free (premise) and nobody else is inside the lock *)
+      pose proof (Hfresh P) as S1. pose proof (pre_nd b) as S2.
+      assert (Hlock : lock st = Some b) by (apply (I_crit st I); rewrite P; reflexivity).
+      unfold reserve.
+      assert (Hup : forall u, In (u, true) (wal st) -> In (u, true) (set_reserved true (map uid (pre b)) (wal st))).
+      { intros u Hu. apply in_set_reserved.
+        destruct (in_dec N.eq_dec (uid u) (map uid (pre b))); [right; eauto | left; auto]. }
+      assert (Hnew : forall u, In u (pre b) -> In (u, true) (set_reserved true (map uid (pre b)) (wal st))).
+      { intros u Hu. apply in_set_reserved. right. split; [reflexivity|]. split; [apply in_map; assumption|].
+        exists false. apply S1; assumption. }
+      constructor; simpl.
+      + rewrite ids_set_reserved. apply (I_nodup st I).
+      + intros i. split_b b i; simpl; [intros _; assumption | apply (I_crit st I)].
+      + intros i u. split_b b i; simpl.
+        * rewrite in_app_iff. intros [Hu|Hu]; [apply Hup, (I_held st I b); assumption | apply Hnew; assumption].
+        * intro Hu. apply Hup, (I_held st I i); assumption.
+      + intros i. split_b b i; simpl; [|apply (I_held_nd st I)].
+        rewrite map_app. apply NoDup_app_uid; [apply (I_held_nd st I) | assumption|].
+        intros x Hx1 Hx2. apply in_map_uid in Hx2. destruct Hx2 as [u2 [Hu2 E2]]. subst x.
+        apply S1 in Hu2. exact (free_not_held st b u2 I Hu2 Hx1).
+      + intros b1 b2 u1 u2 Hne. split_b b b1; split_b b b2; simpl; try congruence.
+        * rewrite in_app_iff. intros [H1|H1] H2; [apply (I_disj st I b b2); assumption|].
+          intro E. apply S1 in H1. apply (free_not_held st b2 u1 I H1). rewrite E. apply in_map; assumption.
+        * rewrite in_app_iff. intros H1 [H2|H2]; [apply (I_disj st I b1 b); assumption|].
+          intro E. apply S1 in H2. apply (free_not_held st b1 u2 I H2). rewrite <- E. apply in_map; assumption.
+        * apply (I_disj st I); assumption.
+      + intros i. split_b b i; simpl; [discriminate|]. intro Hph.
+        assert (lock st = Some i) by (apply (I_crit st I); rewrite Hph; reflexivity). congruence.
+      + intros i. split_b b i; simpl; [discriminate|]. intro Hph.
+        assert (lock st = Some i) by (apply (I_crit st I); rewrite Hph; reflexivity). congruence.
+      + intros u Hu. apply in_set_reserved in Hu. destruct Hu as [[Hu _]|[_ [Hi [f0 Hf0]]]].
+        * destruct (I_res st I u Hu) as [i Hi]. exists i. split_b b i; simpl; [apply in_app_iff; left|]; assumption.
+        * exists b. rewrite upd_same; simpl. apply in_app_iff; right.
+          apply in_map_uid in Hi. destruct Hi as [u2 [Hu2 E]].
+          pose proof (S1 u2 Hu2) as H2.
+          destruct (ids_unique (wal st) u2 false u f0 (I_nodup st I) H2 Hf0 E) as [-> _]. assumption.
+      + intros i Hi. rewrite upd_other by lia. apply (I_out st I); assumption.
+      + intros i. split_b b i; simpl; [discriminate | apply (I_fin st I)].
+      + intros Hall. rewrite fst_set_reserved. apply (I_same st I). intros i. specialize (Hall i).
+        split_b b i; simpl in *; [congruence | assumption].
+    - (* PreUnlock *)
+      assert (Hlock : lock st = Some b) by (apply (I_crit st I); rewrite P; reflexivity).
+      set (B' := if start b then mkB PLock (rnd (bs st b)) [] [] (held (bs st b))
+                 else if can_sign b (held (bs st b)) then mkB PFinish (rnd (bs st b)) [] [] (held (bs st b))
+                 else mkB PAbort (rnd (bs st b)) [] [] (held (bs st b))).
+      assert (HB : held B' = held (bs st b) /\ crit (ph B') = false /\ finished (ph B') = false /\
+                   ph B' <> PSelect /\ ph B' <> PReserve /\ ph B' <> PDone Broadcast).
+      { unfold B'. destruct (start b); [|destruct (can_sign _ _)]; simpl; repeat split; discriminate. }
+      destruct HB as [Hh [Hc [Hf [Hp1 [Hp2 Hp3]]]]].
+      constructor; simpl.
+      + apply (I_nodup st I).
+      + intros i. split_b b i; simpl; [congruence|]. intro Hcr. apply (I_crit st I) in Hcr. congruence.
+      + intros i u. split_b b i; simpl; [rewrite Hh|]; apply (I_held st I).
+      + intros i. split_b b i; simpl; [rewrite Hh|]; apply (I_held_nd st I).
+      + intros b1 b2 u1 u2 Hne. split_b b b1; split_b b b2; simpl; rewrite ?Hh; try congruence; apply (I_disj st I); assumption.
+      + intros i. split_b b i; simpl; [congruence | apply (I_snap st I)].
+      + intros i. split_b b i; simpl; [congruence | apply (I_sel st I)].
+      + intros u Hu. destruct (I_res st I u Hu) as [i Hi]. exists i. split_b b i; simpl; [rewrite Hh|]; assumption.
+      + intros i Hi. rewrite upd_other by lia. apply (I_out st I); assumption.
+      + intros i. split_b b i; simpl; [congruence | apply (I_fin st I)].
+      + intros Hall. apply (I_same st I). intros i. specialize (Hall i). split_b b i; simpl in *; [congruence | assumption].
     - (* Lock *)
       destruct (lock st) eqn:L; [assumption|].
       constructor; simpl.
@@ -254,9 +336,24 @@ Section Inv.
     - assumption.
   Qed.
 
-  Lemma run_inv sched : forall st, Inv st -> Inv (run true n choose more finish can_sign sched st).
+  (* every build finds its pre-chosen outputs unreserved when it reserves them, along the whole schedule *)
+  Fixpoint fresh_sched (sched : list nat) (st : state) : Prop :=
+    match sched with
+    | [] => True
+    | b :: s => fresh st b /\ fresh_sched s (step true true n choose more finish pre start can_sign st b)
+    end.
+
+  Lemma run_inv sched : forall st, Inv st -> fresh_sched sched st ->
+    Inv (run true true n choose more finish pre start can_sign sched st).
   Proof.
-    induction sched as [|b s IH]; intros st I; simpl; [assumption|]. apply IH, step_inv, I.
+    induction sched as [|b s IH]; intros st I F; simpl; [assumption|]. destruct F as [F1 F2].
+    apply IH; [apply step_inv; assumption | assumption].
+  Qed.
+
+  Lemma fresh_sched_nil_pre sched : (forall b, pre b = []) -> forall st, fresh_sched sched st.
+  Proof.
+    intro Hn. induction sched as [|b s IH]; intro st; simpl; [exact I|]. split; [|apply IH].
+    intros _ u Hu. rewrite Hn in Hu. destruct Hu.
   Qed.
 
   (* ---------------------------------------------------------------- the theorems *)
@@ -264,13 +361,14 @@ Section Inv.
   Hypothesis w0_free : forall e, In e w0 -> snd e = false.
 
   Theorem exclusive sched :
-    let st := run true n choose more finish can_sign sched (init w0) in
+    fresh_sched sched (init w0) ->
+    let st := run true true n choose more finish pre start can_sign sched (init w0) in
     (forall b1 b2 i, b1 <> b2 -> In i (held_ids st b1) -> In i (held_ids st b2) -> False) /\
     (forall b, NoDup (held_ids st b)) /\
     (forall i, In i (reserved_ids (wal st)) <-> exists b, b < n /\ In i (held_ids st b)) /\
     (forall b u, In u (held (bs st b)) -> ~ In u (unreserved (wal st))).
   Proof.
-    intro st. assert (I : Inv st) by (apply run_inv, init_inv; assumption).
+    intros F st. assert (I : Inv st) by (apply run_inv; [apply init_inv; assumption | assumption]).
     split; [|split; [|split]].
     - intros b1 b2 i Hne H1 H2. unfold held_ids in *. apply in_map_uid in H1, H2.
       destruct H1 as [u1 [H1 E1]], H2 as [u2 [H2 E2]].
@@ -297,12 +395,13 @@ Section Inv.
   Qed.
 
   Theorem all_released sched :
-    let st := run true n choose more finish can_sign sched (init w0) in
+    fresh_sched sched (init w0) ->
+    let st := run true true n choose more finish pre start can_sign sched (init w0) in
     (forall b, b < n -> finished (ph (bs st b)) = true) ->
     reserved_ids (wal st) = [] /\
     ((forall b, b < n -> ph (bs st b) <> PDone Broadcast) -> wal st = w0).
   Proof.
-    intros st Hfin. assert (I : Inv st) by (apply run_inv, init_inv; assumption).
+    intros F st Hfin. assert (I : Inv st) by (apply run_inv; [apply init_inv; assumption | assumption]).
     assert (Hnone : forall u, ~ In (u, true) (wal st)).
     { intros u Hu. destruct (I_res st I u Hu) as [b Hb].
       destruct (le_lt_dec n b) as [Hle|Hlt].
@@ -326,24 +425,25 @@ Proof.
   - split; [intros ? [<-|[]]; left; reflexivity | constructor; [intros [] | constructor]].
 Qed.
 Definition demo_wallet : wallet := [(mkU 1 500000 5 true true 1, false)].
-Definition demo_sched : list nat := [0; 0; 1; 1; 1; 0; 0; 0; 1; 1]%nat.
+Definition demo_sched : list nat := [0; 0; 0; 1; 1; 1; 0; 0; 1; 1; 1; 0; 0; 0; 1; 1]%nat.
 
 Lemma lock_needed :
-  exists n choose more finish can_sign w0 sched,
+  exists n choose more finish pre start can_sign w0 sched,
+    (forall b, pre b = []) /\
     (forall b r l, NoDup (map uid l) -> incl (choose b r l) l /\ NoDup (map uid (choose b r l))) /\
     NoDup (map (fun e : utxo * bool => uid (fst e)) w0) /\ (forall e, In e w0 -> snd e = false) /\
-    let st := run false n choose more finish can_sign sched (init w0) in
+    let st := run false true n choose more finish pre start can_sign sched (init w0) in
     exists i, In i (held_ids st 0) /\ In i (held_ids st 1).
 Proof.
-  exists 2%nat, first_one, (fun _ _ _ => false), (fun _ => false), (fun _ _ => true), demo_wallet, demo_sched.
-  split; [exact first_one_ok|]. split; [repeat constructor; intros []|].
+  exists 2%nat, first_one, (fun _ _ _ => false), (fun _ => false), (fun _ => []), (fun _ => true), (fun _ _ => true), demo_wallet, demo_sched.
+  split; [reflexivity|]. split; [exact first_one_ok|]. split; [repeat constructor; intros []|].
   split; [intros e [<-|[]]; reflexivity|].
   exists 1%N. vm_compute. split; left; reflexivity.
 Qed.
 
 (* with the lock the same schedule keeps the builds apart *)
 Lemma demo_with_lock :
-  let st := run true 2 first_one (fun _ _ _ => false) (fun _ => false) (fun _ _ => true) demo_sched (init demo_wallet) in
+  let st := run true true 2 first_one (fun _ _ _ => false) (fun _ => false) (fun _ => []) (fun _ => true) (fun _ _ => true) demo_sched (init demo_wallet) in
   held_ids st 0 = [1%N] /\ held_ids st 1 = [] /\ lock st = Some 1%nat.
 Proof. vm_compute. repeat split. Qed.
 
@@ -365,9 +465,11 @@ Section WithC03.
     split; auto.
   Qed.
 
-  Theorem exclusive_c03 n more finish can_sign w0 :
+  Theorem exclusive_c03 n more finish pre start can_sign w0 :
+    (forall b, NoDup (map uid (pre b))) ->
     NoDup (ids_of w0) -> (forall e, In e w0 -> snd e = false) -> forall sched,
-    let st := run true n (c03_choose fpb shuffle strat amount) more finish can_sign sched (init w0) in
+    fresh_sched n (c03_choose fpb shuffle strat amount) more finish pre start can_sign sched (init w0) ->
+    let st := run true true n (c03_choose fpb shuffle strat amount) more finish pre start can_sign sched (init w0) in
     (forall b1 b2 i, b1 <> b2 -> In i (held_ids st b1) -> In i (held_ids st b2) -> False) /\
     (forall b, NoDup (held_ids st b)) /\
     (forall i, In i (reserved_ids (wal st)) <-> exists b, b < n /\ In i (held_ids st b)) /\
@@ -377,10 +479,38 @@ End WithC03.
 
 (* a build that is funded and then fails while signing: its inputs are released again *)
 Lemma demo_sign_fails :
-  let st := run true 1 first_one (fun _ _ _ => false) (fun _ => false) (fun _ _ => false)
-                [0; 0; 0; 0; 0; 0]%nat (init demo_wallet) in
+  let st := run true true 1 first_one (fun _ _ _ => false) (fun _ => false) (fun _ => []) (fun _ => true) (fun _ _ => false)
+                [0; 0; 0; 0; 0; 0; 0; 0; 0]%nat (init demo_wallet) in
   ph (bs st 0%nat) = PDone Failed /\ reserved_ids (wal st) = [] /\ wal st = demo_wallet /\
-  (let st5 := run true 1 first_one (fun _ _ _ => false) (fun _ => false) (fun _ _ => false)
-                  [0; 0; 0; 0; 0]%nat (init demo_wallet) in
+  (let st5 := run true true 1 first_one (fun _ _ _ => false) (fun _ => false) (fun _ => []) (fun _ => true) (fun _ _ => false)
+                  [0; 0; 0; 0; 0; 0; 0; 0]%nat (init demo_wallet) in
    ph (bs st5 0%nat) = PAbort /\ held_ids st5 0%nat = [1%N]).
+Proof. vm_compute. repeat split. Qed.
+
+(* ------------------------------------------------------------------ pre-chosen wallet outputs *)
+(* Before `fix: pre-chosen inputs are reserved under the UTXO reservation lock` create reserved its pre-chosen
+   inputs OUTSIDE the lock ([lock_pre] = false).  With all other lock steps in place: build 0 reads the wallet
+   (output 1 is free), build 1 - handed output 1 as a pre-chosen input - reserves it, build 0 selects and
+   reserves it as well: both hold outpoint 1. *)
+Definition race_pre (b : nat) : list utxo := if Nat.eqb b 1 then [mkU 1 500000 5 true true 1] else [].
+Definition race_sched : list nat := [0; 0; 0; 0; 0; 1; 1; 0; 0]%nat.
+Lemma prechosen_race_old_refuted :
+  let st := run true false 2 first_one (fun _ _ _ => false) (fun _ => false) race_pre (fun b => Nat.eqb b 0)
+                (fun _ _ => true) race_sched (init demo_wallet) in
+  held_ids st 0%nat = [1%N] /\ held_ids st 1%nat = [1%N].
+Proof. vm_compute. repeat split. Qed.
+(* the repaired code on the same schedule: build 1 has to wait for the lock, build 0 gets the output alone *)
+Lemma prechosen_race_repaired :
+  let st := run true true 2 first_one (fun _ _ _ => false) (fun _ => false) race_pre (fun b => Nat.eqb b 0)
+                (fun _ _ => true) race_sched (init demo_wallet) in
+  held_ids st 0%nat = [1%N] /\ held_ids st 1%nat = [] /\ ph (bs st 1%nat) = PPreLock.
+Proof. vm_compute. repeat split. Qed.
+
+(* a build whose pre-chosen wallet inputs cover the cost never asks for funds; it still holds them, and they
+   are released when it is abandoned *)
+Lemma prechosen_sweep :
+  let run_ s := run true true 1 first_one (fun _ _ _ => false) (fun _ => false)
+                (fun _ => [mkU 1 500000 5 true true 1]) (fun _ => false) (fun _ _ => true) s (init demo_wallet) in
+  held_ids (run_ [0; 0; 0]%nat) 0%nat = [1%N] /\ reserved_ids (wal (run_ [0; 0; 0]%nat)) = [1%N] /\
+  ph (bs (run_ [0; 0; 0; 0]%nat) 0%nat) = PDone Released /\ wal (run_ [0; 0; 0; 0]%nat) = demo_wallet.
 Proof. vm_compute. repeat split. Qed.
